@@ -214,6 +214,9 @@ def check_case(ctx, case):
             kw['num_grad'] = True
         if priors_arg is not None:
             kw['priors'] = priors_arg
+        if case.get('guess') is not None:
+            # the starting point of the minimiser is not part of the answer of a linear fit
+            kw['initial_guess'] = [truth[i] * case['guess'] + 0.1 * (i + 1) * (case['guess'] - 1.0) for i in range(npar)]
         # permutation of points / keys must not matter
         if case['combined']:
             idxs = {k: list(range(len(xs[k]))) for k in keys}
@@ -356,6 +359,7 @@ def gen_case(ctx):
             'corr': rng.choice([0.0, 0.5, 1.5]), 'method': rng.choice(['LM', 'LM', 'LM', 'migrad', 'Nelder-Mead', 'Powell']),
             'correlated': rng.random() < 0.3, 'num_grad': rng.random() < 0.2, 'perm': rng.random() < 0.5, 'priors': rng.random() < 0.4}
     case['S_data'] = rng.choice([2.0, 2.0, 0.0, 4.0])
+    case['guess'] = [None, None, 1.3, 0.6][case['seed'] % 4]
     if case['correlated'] and rng.random() < 0.5:
         case['user_chol'] = 'listed_order' if (combined and rng.random() < 0.5) else 'ok'
     case['via_corr'] = (not combined) and b == 'poly' and rng.random() < 0.4
